@@ -2,6 +2,7 @@
 //   *.opt        : random pass sequences on a DetailedPlacer (C02 legality, C05 value monotone, C09 value exact)
 //   c02.ds.closure : exhaustive closure of swap/insert over all legal arrangements of small instances
 //   c02.ds.walk    : random walks carrying one DetailedPlacement object through long op sequences
+#include <memory>
 #include <stdexcept>
 
 #include "circ.hpp"
@@ -113,8 +114,7 @@ static void optCase(Rng &rng, CaseResult &r, unsigned mask, bool reorderOnly = f
     }
     bool improved = false, moved = false;
     std::string kinds;
-    for (size_t k = 0; k < ops.size(); ++k) {
-      const Op &op = ops[k];
+    auto applyOp = [&](DetailedPlacer &pl, const Op &op, bool cnt) {
       if (op.kind == 0) pl.runSwaps(op.a, op.b);
       else if (op.kind == 1) pl.runInserts(op.a, op.b);
       else if (op.kind == 2) pl.runShifts(op.a, op.b);
@@ -159,14 +159,30 @@ static void optCase(Rng &rng, CaseResult &r, unsigned mask, bool reorderOnly = f
                 if (r2 != r1 && rb.size() >= 2) { int l = (int)std::min<long long>(prng.range(2, 3), (long long)rb.size()); int i = (int)prng.range(0, (long long)rb.size() - l); runs.push_back(std::vector<int>(rb.begin() + i, rb.begin() + i + l)); }
                 for (int j = (int)runs.size() - 1; j > 0; --j) std::swap(runs[j], runs[prng.range(0, j)]);
                 for (auto &run : runs) cells.insert(cells.end(), run.begin(), run.end());
-                r.count("reordering_windows_with_runs");
+                if (cnt) r.count("reordering_windows_with_runs");
               } else cells = someCells(6);
               pl.runReorderingOnCells(cells);
               break;
             }
           }
         }
-        r.count("fine_grained_passes");
+        if (cnt) r.count("fine_grained_passes");
+      }
+    };
+    // a copy of the placer taken half way must behave exactly like the original from there on
+    std::unique_ptr<DetailedPlacer> twin;
+    size_t twinAt = rng.chance(0.25) ? ops.size() / 2 : ops.size() + 1;
+    for (size_t k = 0; k < ops.size(); ++k) {
+      const Op &op = ops[k];
+      if (k == twinAt) twin.reset(new DetailedPlacer(pl));
+      applyOp(pl, op, true);
+      if (twin) {
+        applyOp(*twin, op, false);
+        Circuit e1 = c, e2 = c;
+        pl.exportPlacement(e1);
+        twin->exportPlacement(e2);
+        if (twin->value() != pl.value() || !samePlacement(e1, e2)) r.fail((mask & O_C02) ? "C02:copy-of-the-placer-diverges" : (mask & O_C04) ? "C04:copy-of-the-placer-diverges" : (mask & O_C05) ? "C05:copy-of-the-placer-diverges" : "C09:copy-of-the-placer-diverges", "a copy of the DetailedPlacer taken before pass " + std::to_string(twinAt + 1) + " gives another result for the same passes (" + od.str() + ")");
+        r.count("passes_mirrored_on_a_copy");
       }
       kinds += "SIHRabcdefghi"[op.kind];
       r.count("passes");
